@@ -71,10 +71,10 @@ class Judge:
             # the clause as such (theorems C02_attempts_at_height / C02_jumpoff_accepted_iff: holds in every reachable state of the model)
             fail('at most three attempts at a height, one in a jump-off: refused', 'accepted as attempt number %d at this height (state %s)' % (ncell + 1, st0),
                  'more attempts at a height than the rules give')
-        if back and c.state in ('scheduled', 'started', 'won'):
+        if back and c.state != 'jumpoff':
             # theorem C02_back_only_with_one_attempt: in the model nobody who was out is in again unless a jump-off is on
             fail('an athlete who is out stays out unless re-instated for a jump-off', 'bib %s is back in, state %s' % (','.join(str(b) for b in back), c.state),
-                 'out, then in again outside a jump-off')
+                 'out, then in again although no jump-off is on')
         if st0 in ('finished', 'drawn') and out == 'ok':
             fail('nothing is accepted once finished or drawn', out, 'accepted in a terminal state')
         return out, out + '|' + after
